@@ -80,7 +80,17 @@ def _u(*classes):
 
 KINDS = {
     'String': {
-        'cls': 'StringGrader', 'opts': [{}, {'case_sensitive': False}],
+        'cls': 'StringGrader', 'opts': [{}, {'case_sensitive': False},
+                                       {'validation_pattern': '[a-z0-9 ]+', 'explain_validation': None},
+                                       {'validation_pattern': '[a-z0-9 ]+', 'explain_validation': 'msg'},
+                                       {'validation_pattern': '[a-z0-9 ]+', 'explain_validation': 'err'},
+                                       {'accept_any': True, 'min_length': 4, 'explain_minimums': None},
+                                       {'accept_any': True, 'min_words': 2, 'explain_minimums': 'msg'},
+                                       {'accept_nonempty': True, 'explain_minimums': None},
+                                       {'accept_any': True, 'validation_pattern': '[a-z ]+', 'explain_validation': None,
+                                        'min_length': 4, 'explain_minimums': 'msg'}],
+        # for the option sets with a validation pattern / minimum lengths: inputs that fail them
+        'failing': ['cat!', 'Zebra!', '', 'ab', 'two words', 'CAT', 'x', '42'],
         'universe': _u((['cat', ' cat', 'cat  '], ['cat', ' cat ', 'cat\t']),
                        (['dog'], ['dog', 'dog ']),
                        (['fish', 'fish '], ['fish']),
@@ -270,6 +280,9 @@ def gen_case(rng, kind, tier):
     inputs.append({'text': rng.choice(K['outsiders']), 'cls': None})
     if K.get('partial') and rng.random() < 0.8:
         inputs.append({'text': rng.choice(K['partial']), 'cls': 'partial'})
+    if K.get('failing') and oi >= 2:
+        for t in rng.sample(K['failing'], 3):
+            inputs.append({'text': t, 'cls': 'partial'})
     if K.get('letters'):
         # submissions with fewer / as many / more entries than the expected lists, overlapping several of them
         for _ in range(4):
@@ -424,6 +437,8 @@ def judge(result, earned, wrong_msg, tol=0):
 def direct_earned(case, inp):
     """ground truth by construction, or None when the case does not determine it"""
     kind, k = case['kind'], inp['cls']
+    if is_slg(kind):
+        return direct_earned_slg(case, inp)
     if k in ('partial', 'raising'):
         return None
     if kind == 'Matrix':
@@ -437,20 +452,42 @@ def direct_earned(case, inp):
                 return None                 # a matrix literal as input is refused by the parser (max_array_dim=1)
         elif tags != {'v2'}:
             return None
-    if is_slg(kind):
-        U = KINDS[kind]['universe']
-        if any(U[c]['tag'] == 'ov' for a in case['alts'] for c in a['classes']) or (k is not None and U[k]['tag'] == 'ov'):
-            return None
-    if is_slg(kind) and KINDS[kind]['opts'][case['oi']].get('ordered'):
-        # listed order matters: only spellings in the class's own order match fully
-        if k is not None and [p.strip() for p in inp['text'].split(',')] != [p.strip() for p in KINDS[kind]['universe'][k]['alts'][0]]:
-            return None
+    if kind == 'String' and case['oi'] >= 2:
+        return None                     # validation pattern / minimum lengths / accept_any: the singles oracle judges these
     earned = []
     for a in case['alts']:
         credit = 1 if a['credit'] is None else a['credit']
         msg = '' if a['msg'] is None else a['msg']
         for c in a['classes']:
             earned.append((credit, msg) if (k is not None and c == k) else (0, ''))
+    return earned
+
+
+def direct_earned_slg(case, inp):
+    """SingleListGrader over plain strings: a submission that matches an expected list entirely (same entries; same order
+    when ordered) earns the alternative's credit and message; one sharing no entry with it earns (0, ''); with
+    partial_credit=False anything short of an entire match earns (0, ''); other overlaps are left to the singles oracle"""
+    kind = case['kind']
+    if inp['cls'] == 'raising':
+        return None
+    o = KINDS[kind]['opts'][case['oi']]
+    sub = [p.strip() for p in inp['text'].split(',')]
+    if any(p == '' for p in sub):
+        return None
+    U = KINDS[kind]['universe']
+    earned = []
+    for a in case['alts']:
+        credit = 1 if a['credit'] is None else a['credit']
+        msg = '' if a['msg'] is None else a['msg']
+        for c in a['classes']:
+            exp = [x.strip() for x in U[c]['alts'][0]]
+            full = (sub == exp) if o.get('ordered') else (sorted(sub) == sorted(exp))
+            if full:
+                earned.append((credit, msg))
+            elif o.get('partial_credit') is False or not (set(sub) & set(exp)):
+                earned.append((0, ''))
+            else:
+                return None
     return earned
 
 
